@@ -45,8 +45,14 @@ macro_rules! fifo_sched_harness {
 }
 
 fifo_sched_harness!(c03_fifo_q, 7, 12, Q, 1, 3);
+/// the second task never arrives (a single task: busy windows of length 1 are possible)
+pub const QS: Shape = Shape {
+    n_tua: 2, n_others: 1, n_oth: 0, inc_mask: 3, cost_mask: 1,
+    limit_mask: 7, limit_max: 5, dl_mask: 0, b_mask: 0,
+};
+fifo_sched_harness!(c03_fifo_single_q, 7, 12, QS, 1, 3);
 fifo_sched_harness!(c03_fifo_t, 10, 18, T, 3, 3);
 
 pub fn register(t: &mut Table) {
-    reg!(t; c03_fifo_q, c03_fifo_t);
+    reg!(t; c03_fifo_q, c03_fifo_single_q, c03_fifo_t);
 }
